@@ -54,6 +54,7 @@ class Built:
         self.keyidx: dict = {}
         self.objidx: dict[int, int] = {}
         self.idxobj: dict[int, object] = {}
+        self.xtoks: list[str] = []      # nested description for the driver's `Root.flatten`
         if mode != 'doc':
             # an lxml root element with document-level siblings is always built as a document by
             # elementpath (tree_builders.py:216): siblings only in the document form
@@ -77,6 +78,7 @@ class Built:
         # ---- the array (independent of elementpath's node tree)
         if mode == 'doc':
             self._rec('D', '', '', None, ('D',))
+            self.xtoks += ['doc', str(len(self.pre_objs) + 1 + len(self.post_objs))]
             for o, n in zip(self.pre_objs, pre):
                 self._leaf_rec(n, o, 0)
             self._flatten(tree, self.root_obj, 0)
@@ -85,8 +87,10 @@ class Built:
             self.recs[0][4] = len(self.recs) - 1
         elif mode == 'dummy':
             self._rec('D', '', '', None, ('D',))
+            self.xtoks.append('dummy')
             self._flatten(tree, self.root_obj, None)
         else:
+            self.xtoks.append('frag')
             self._flatten(tree, self.root_obj, None)
 
     # -- construction of the library trees
@@ -146,6 +150,7 @@ class Built:
         return i
 
     def _leaf_rec(self, n, obj, parent):
+        self.xtoks += ['L', n[0], n[1] if n[0] == 'P' else '']
         if n[0] == 'T':
             return self._rec('T', '', '', parent, ('T', n[1]))
         i = self._rec(n[0], '', n[1] if n[0] == 'P' else '', parent, ('E', id(obj)))
@@ -163,6 +168,10 @@ class Built:
             pfx = [k for k in obj.nsmap if k is not None and k != 'xml']
         else:
             pfx = [k for k in NS if k != 'xml']
+        self.xtoks += ['E', n[1], n[2], str(1 + len(pfx)), 'xml'] + pfx + [str(len(n[3]))]
+        for u, l, v in n[3]:
+            self.xtoks += [u, l]
+        self.xtoks.append(str(len(n[4])))
         for p in ['xml'] + pfx:
             self._rec('N', '', p, i, ('N', i, p))
         for u, l, v in n[3]:
@@ -351,7 +360,7 @@ def gen_test(rng, axis) -> str:
     if axis == 'attribute':
         return rng.choice(['any', 'any', 'q::k', 'q::j', 'q:P:k', 'node', 'ns:P', 'q::x'])
     if axis == 'namespace':
-        return rng.choice(['any', 'q::p', 'q::xml', 'node', 'any'])
+        return rng.choice(['any', 'q::p', 'q::xml', 'node', 'any', 'text', 'comment', 'q:P:x'])
     return rng.choice(['any'] * 10 + ['q::x'] * 5 + ['q::y'] * 3 + ['q::a', 'text', 'text', 'comment', 'pi', 'pi:pi',
                        'q:P:x', 'ns:P', 'q::k'] + ['node'] * 7)
 
@@ -631,7 +640,7 @@ def compare(run: Run, cases: list[dict], full: bool = True, lxml_check: bool = T
         b = Built(c['tree'], c['pre'], c['post'], c['lib'], c['mode'])
         builts.append(b)
         c['ctx'] = choose_ctx(b, c)
-        lines.append(f"M={c['mode']} T={b.tree_field()} E={'~'.join(polish(c['expr']))} "
+        lines.append(f"M={c['mode']} T={b.tree_field()} X={'~'.join(b.xtoks)} E={'~'.join(polish(c['expr']))} "
                      f"C={','.join(str(i) for i in c['ctx'])}")
     answers = drive(run, lines)
     P = parsers()
@@ -642,7 +651,7 @@ def compare(run: Run, cases: list[dict], full: bool = True, lxml_check: bool = T
             continue
         head, _, rfield = ans.partition(' R=')
         flds = dict(x.split('=') for x in head.split(' '))
-        if flds['wf'] != '1' or flds['ty'] != 'path':
+        if flds['wf'] != '1' or flds['fl'] != '1' or flds['ty'] != 'path':
             # harness fault: generated tree not well-formed for the Lean encoding / ill-typed expression
             run.disagree(Disagreement(cj, 'harness:' + head, what='wf-or-typing-of-generated-input'))
             continue
@@ -664,6 +673,11 @@ def compare(run: Run, cases: list[dict], full: bool = True, lxml_check: bool = T
             run.disagree(Disagreement(cj, err_code(e), model=per[min(per)][0], spec=per[min(per)][1],
                                       what='parse-or-tree-build', site='parser'))
             continue
+        trees = {v: t.tree for v, t in toks.items()}
+        st.count('token-tree-compared')
+        if any(trees[v] != trees['1.0'] for v in trees):
+            run.disagree(Disagreement(cj, str({v: trees[v] for v in trees if trees[v] != trees['1.0']})[:300], None,
+                                      trees['1.0'][:300], what='token-tree-2.0+-vs-1.0', site='parsers'))
         ctxs = [i for i in c['ctx'] if i in it.ctxnode]
         if len(ctxs) != len(c['ctx']):
             run.disagree(Disagreement(cj, 'harness:context-nodes-missing', what='node-identity-map'))
@@ -746,6 +760,86 @@ def self_check_public(run, it: ImplTree, b: Built, cji, path, i, impl, tags):
                 return
 
 
+# ===================================================================== generator state discipline
+STATE_AXES = AXES + ['dslash']
+
+
+def real_generator(it: 'ImplTree', ctx, axis):
+    if axis == 'self':
+        return ctx.iter_self()
+    if axis == 'child':
+        return ctx.iter_children_or_self()
+    if axis in ('descendant', 'descendant-or-self'):
+        return ctx.iter_descendants(axis=axis)
+    if axis == 'dslash':
+        return ctx.iter_descendants()
+    if axis == 'parent':
+        return ctx.iter_parent()
+    if axis in ('ancestor', 'ancestor-or-self'):
+        return ctx.iter_ancestors(axis=axis)
+    if axis in ('following-sibling', 'preceding-sibling'):
+        return ctx.iter_siblings(axis=axis)
+    if axis == 'following':
+        return ctx.iter_followings()
+    if axis == 'preceding':
+        return ctx.iter_preceding()
+    if axis == 'attribute':
+        return ctx.iter_attributes()
+    if axis == 'namespace':
+        return it.ns_token.select(ctx)
+    raise ValueError(axis)
+
+
+def state_correspond(run: Run, cases: list[dict]) -> None:
+    """context.item / context.axis at every yield of the real iterators, after exhaustion and after an
+    early close, against the statement-level model of EPV/Model/AxesState.lean"""
+    st = run.stats
+    builts = [Built(c['tree'], c['pre'], c['post'], c['lib'], c['mode']) for c in cases]
+    lines = [f"M={c['mode']} T={b.tree_field()} OP=state C=*" for c, b in zip(cases, builts)]
+    answers = drive(run, lines)
+    P = parsers()
+    for c, b, ans in zip(cases, builts, answers):
+        cj = {'tree': c['tree'], 'pre': c['pre'], 'post': c['post'], 'lib': c['lib'], 'mode': c['mode']}
+        if not ans.startswith('wf=1 S='):
+            run.disagree(Disagreement(cj, 'driver:' + ans[:80], what='protocol-state'))
+            continue
+        model = {}
+        for item in ans[len('wf=1 S='):].split('|'):
+            i, ax, tr = item.split(':')
+            model[(int(i), ax)] = tr
+        it = ImplTree(b)
+        it.ns_token = P['1.0'](namespaces=dict(NS)).parse('namespace::*')
+
+        def idx(n):
+            return b.keyidx.get(b.key_of(n, it.xn), -1)
+        for i in sorted(it.ctxnode):
+            for ax in STATE_AXES:
+                try:
+                    ctx = it.XPathContext(it.node_tree, namespaces=dict(NS), fragment=it.frag, item=it.ctxnode[i])
+                    ys = []
+                    for v in real_generator(it, ctx, ax):
+                        ys.append(f'{idx(v)},{idx(ctx.item)},{ctx.axis or "-"}')
+                    real = ';'.join(ys) + f'/{idx(ctx.item)},{ctx.axis or "-"}'
+                    # early close after the first yield: state stays as at that yield
+                    if ys:
+                        ctx2 = it.XPathContext(it.node_tree, namespaces=dict(NS), fragment=it.frag, item=it.ctxnode[i])
+                        g = real_generator(it, ctx2, ax)
+                        next(g)
+                        g.close()
+                        closed = f'{idx(ctx2.item)},{ctx2.axis or "-"}'
+                        want = ys[0].split(',', 1)[1]
+                        st.count('early-close-checked')
+                        if closed != want:
+                            run.disagree(Disagreement(dict(cj, ctx=i, axis=ax), closed, want, None,
+                                                      what='iterator-state-after-early-close', site='xpath_context.py'))
+                except Exception as e:
+                    real = err_code(e)
+                st.count('iterator-trace-checked')
+                if real != model[(i, ax)]:
+                    run.disagree(Disagreement(dict(cj, ctx=i, axis=ax), real, model[(i, ax)], None,
+                                              what='iterator-state-trace', site='xpath_context.py iterators'))
+
+
 # ===================================================================== corpus
 def E(name, *kids, attrs=(), u=''):
     return ['E', u, name, [list(a) for a in attrs], list(kids)]
@@ -809,7 +903,7 @@ COMBOS = [('et', 'dummy'), ('lxml', 'doc'), ('et', 'doc'), ('lxml', 'dummy'), ('
 
 def correspond(run: Run) -> None:
     rng = run.rng
-    ntrees = int(__import__('os').environ.get('C01_NTREES') or run.scale(600, 5000))
+    ntrees = int(__import__('os').environ.get('C01_NTREES') or run.scale(450, 4500))
     per_tree = run.scale(10, 14)
     cases = corpus_cases()
     for t in range(ntrees):
@@ -828,6 +922,14 @@ def correspond(run: Run) -> None:
                       '<=2 predicates per step: numbers, last(), position() comparisons, paths, and/or/not; /, //, ., .., @, '
                       'parenthesised paths) x every node of the tree as context item. distinct = distinct tuples with a '
                       'non-empty specified result')
+    # generator discipline: traces of all iterators on a sample of the trees
+    seen, sample = set(), []
+    for c in cases:
+        k = (json.dumps(c['tree']), c['lib'], c['mode'])
+        if k not in seen:
+            seen.add(k)
+            sample.append(c)
+    state_correspond(run, sample[:run.scale(60, 400)])
     chunk = 400
     for i in range(0, len(cases), chunk):
         compare(run, cases[i:i + chunk])
@@ -1052,6 +1154,76 @@ def shrink(d: Disagreement) -> Disagreement:
     return best
 
 
+# ===================================================================== translator: method table
+FRAGMENT_SYMBOLS = ['self', 'child', 'descendant', 'descendant-or-self', 'parent', 'ancestor', 'ancestor-or-self',
+                    'following-sibling', 'preceding-sibling', 'following', 'preceding', 'attribute', 'namespace',
+                    '@', '/', '//', '[', '(', '(name)', ':', '*', '.', '..', 'node', 'text', 'comment',
+                    'processing-instruction', '(integer)', 'position', 'last', 'count', 'not', 'and', 'or',
+                    '=', '!=', '<', '<=', '>', '>=', '|']
+METHODS = ['select', 'evaluate', 'select_with_focus', 'nud', 'led']
+ATTRS = ['lbp', 'rbp', 'label', 'reverse_axis']
+
+
+def translate_methods(run: Run) -> dict:
+    """For every token symbol of the fragment and each of the four parser classes: which function object
+    implements select / evaluate / select_with_focus / nud / led (numbered per row by identity, in order of
+    first appearance) and the class attributes lbp, rbp, label, reverse_axis  ->  EPV/Gen/C01Methods.lean.
+    `EPV.Props.C01Methods` proves by `decide` that the rows of the shared symbols are constant."""
+    from harness.common import LEAN
+    P = parsers()
+    fn_ns = '{http://www.w3.org/2005/xpath-functions}'
+    rows, arows = [], []
+    for sym in FRAGMENT_SYMBOLS:
+        classes = []
+        for v in ('1.0', '2.0', '3.0', '3.1'):
+            st = P[v].symbol_table
+            classes.append(st.get(sym) or st.get(fn_ns + sym))
+        mrow = []
+        for meth in METHODS:
+            objs, ids = [], []
+            for cls in classes:
+                f = getattr(cls, meth, None) if cls is not None else ('missing', len(objs))
+                for k, o in enumerate(objs):
+                    if o is f:
+                        ids.append(k)
+                        break
+                else:
+                    objs.append(f)
+                    ids.append(len(objs) - 1)
+            mrow.append(ids)
+        rows.append((sym, mrow))
+        arow = []
+        for at in ATTRS:
+            vals, ids = [], []
+            for cls in classes:
+                val = repr(getattr(cls, at, None)) if cls is not None else 'missing'
+                if val not in vals:
+                    vals.append(val)
+                ids.append(vals.index(val))
+            arow.append(ids)
+        arows.append((sym, arow))
+
+    def ll(x):
+        return '[' + ', '.join(ll(y) if isinstance(y, list) else str(y) for y in x) + ']'
+    out = ['/- GENERATED by harness/c01.py::translate_methods from the live parser classes -- do not edit -/',
+           'namespace EPV.Gen.C01', '',
+           '/-- (symbol, for each of select / evaluate / select_with_focus / nud / led: the function object of the',
+           '1.0, 2.0, 3.0, 3.1 parser class, numbered by identity) -/',
+           'def methods : List (String × List (List Nat)) := [']
+    out.append(',\n'.join(f'  ("{sym}", {ll(m)})' for sym, m in rows) + ']')
+    out += ['', '/-- (symbol, for each of lbp / rbp / label / reverse_axis: the value in the four classes, numbered) -/',
+            'def attrs : List (String × List (List Nat)) := [']
+    out.append(',\n'.join(f'  ("{sym}", {ll(m)})' for sym, m in arows) + ']')
+    out += ['', 'end EPV.Gen.C01', '']
+    gen = LEAN / 'EPV' / 'Gen' / 'C01Methods.lean'
+    gen.parent.mkdir(exist_ok=True)
+    text = '\n'.join(out)
+    if not gen.exists() or gen.read_text() != text:
+        gen.write_text(text)
+    differing = [sym for sym, m in rows if any(len(set(ids)) > 1 for ids in m[:3])]
+    return {'symbols': len(rows), 'select_evaluate_focus_differ': differing}
+
+
 # ===================================================================== entry
 def body(run: Run) -> int:
     run.trusted_base += ['the array encoding computed by harness/c01.py::Built from its own tree description',
@@ -1063,7 +1235,10 @@ def body(run: Run) -> int:
                         'Element root without fragment flag: the dummy document is a virtual root that is not the parent of '
                         'the root element (elementpath API semantics, not W3C)',
                         'context.axis state machine abstracted: a step = axis iterator then node test on each yielded item']
-    run.prove(['EPV.Props.C01'], ['EPV.Spec.XPath1Paths', 'EPV.Proto'])
+    run.stats.extra['method_table'] = translate_methods(run)
+    run.trusted_base.append('translator harness/c01.py::translate_methods (function-object identity of the token methods of the '
+                            'four parser classes, printed as a Lean table)')
+    run.prove(['EPV.Props.C01', 'EPV.Props.C01Methods'], ['EPV.Spec.XPath1Paths', 'EPV.Model.AxesTree', 'EPV.Model.AxesState', 'EPV.Proto'])
     try:
         if getattr(run, 'replay', None):
             data = json.loads(Path(run.replay).read_text())
@@ -1082,4 +1257,4 @@ def body(run: Run) -> int:
 
 
 if __name__ == '__main__':
-    cli(PROP, body)
+    cli(PROP, body, translate=translate_methods)
